@@ -32,11 +32,12 @@ def _set(xs):
 # ------------------------------------------------------------------------------------------------
 # configurations
 
-def c15_cfg(pkgs, sites, kinds, names, child, maxc, f2pkgs=(), f2decls=(), f2rels=()):
+def c15_cfg(pkgs, sites, kinds, names, child, maxc, f2pkgs=(), f2decls=(), f2rels=(), sib=("FALSE",)):
     return """SPECIFICATION Spec
 CONSTANTS
   Pkgs1Ids = %s
   SiteKinds = %s
+  SibModes = {%s}
   CandKinds = %s
   CandNames = %s
   AllowChild = %s
@@ -46,12 +47,13 @@ CONSTANTS
   F2Rels = %s
 INVARIANTS Export
 CHECK_DEADLOCK FALSE
-""" % (_set(pkgs), _set(sites), _set(kinds), _set(names), "TRUE" if child else "FALSE", maxc,
+""" % (_set(pkgs), _set(sites), ", ".join(sib), _set(kinds), _set(names), "TRUE" if child else "FALSE", maxc,
        _set(f2pkgs), _set(f2decls), _set(f2rels))
 
 
 ALL_PKGS = ["none", "a", "ab", "b"]
-ALL_SITES = ["type", "extendee", "input", "output", "msgopt", "fldopt", "fileopt"]
+ALL_SITES = ["type", "extendee", "input", "output", "msgopt", "fldopt", "fileopt", "mtdopt"]
+BOTH = ("FALSE", "TRUE")
 ALL_KINDS = ["message", "enum", "enumv", "field", "oneof", "ext", "service", "method"]
 ALL_F2PKGS = ["none", "a", "ab", "b", "ba"]
 ALL_F2DECLS = ["msg:a", "msg:b", "enum:a", "msgab", "ext:a", "svc:a", "val:b"]
@@ -62,21 +64,26 @@ def c15_runs(tier):
     """(name, cfg text, simulate count or None, depth, keep fraction).
     Measured sizes: one-cand 564 cases; two-cands ~9.5k cases; every case carries 66 spellings."""
     f2kinds = ["message", "enumv", "field", "ext", "service", "method"]
+    nofile = [x for x in ALL_SITES if x != "fileopt"]
     if tier == "thorough":
         return [
             ("two-cands", c15_cfg(ALL_PKGS, ALL_SITES, ALL_KINDS, ["a", "b"], True, 2), None, None, 1.0),
+            # earlier sibling message / service zq with declarations inside it (scope leakage)
+            ("siblings", c15_cfg(ALL_PKGS, nofile, ALL_KINDS, ["a", "b"], False, 2, sib=("TRUE",)), None, None, 0.5),
             ("second-file", c15_cfg(ALL_PKGS, ["type", "extendee", "input", "msgopt", "fileopt"], f2kinds,
                                     ["a", "b"], False, 1, ["none", "a", "ab", "b"],
                                     ["msg:a", "msg:b", "msgab", "ext:a", "val:b"], ALL_RELS), None, None, 0.5),
-            ("sim-deep", c15_cfg(ALL_PKGS, ALL_SITES, ALL_KINDS, ["a", "b"], True, 4, ALL_F2PKGS, ALL_F2DECLS, ALL_RELS),
+            ("sim-deep", c15_cfg(ALL_PKGS, ALL_SITES, ALL_KINDS, ["a", "b"], True, 4, ALL_F2PKGS, ALL_F2DECLS, ALL_RELS, sib=BOTH),
              30, 6, 1.0),
         ]
     return [
         ("one-cand", c15_cfg(ALL_PKGS, ALL_SITES, ALL_KINDS, ["a", "b"], False, 1), None, None, 1.0),
+        ("siblings", c15_cfg(["none", "a", "ab"], ["type", "fldopt", "input", "output", "mtdopt"],
+                             ["message", "field", "ext", "method"], ["a"], False, 2, sib=("TRUE",)), None, None, 1.0),
         ("second-file", c15_cfg(["none", "a", "ab"], ["type", "extendee", "input", "msgopt"],
                                 ["message", "field", "service", "ext"], ["a", "b"], False, 1,
                                 ["none", "a", "ab"], ["msg:b", "msgab"], ["plain", "hidden", "public"]), None, None, 0.4),
-        ("sim-deep", c15_cfg(ALL_PKGS, ALL_SITES, ALL_KINDS, ["a", "b"], True, 3, ALL_F2PKGS, ALL_F2DECLS, ALL_RELS),
+        ("sim-deep", c15_cfg(ALL_PKGS, ALL_SITES, ALL_KINDS, ["a", "b"], True, 3, ALL_F2PKGS, ALL_F2DECLS, ALL_RELS, sib=BOTH),
          4, 5, 1.0),
     ]
 
@@ -165,6 +172,8 @@ ASSUMPTIONS = {
         "a package reached as final symbol is reported by the Go linker in the 'resolved to <pkg> which is not defined' wording",
         "when protoc would say 'not defined' / 'is not a type' after skipping a non-type for an unqualified name, the Go linker "
         "names the innermost skipped non-type instead: same verdict (rejected), accepted and counted as tolerated",
+        "sibling scopes: an earlier sibling message / service with nested declarations is part of the universe (names nested "
+        "in a sibling must not be found unqualified)",
         "extension-range option names and names inside option message literals are not probed (protoc's scope for them is "
         "not certain without the binary)",
         "renderer / projection (harness/_common/ws) are trusted base, cross-checked by render -> parse -> read back",
